@@ -68,6 +68,26 @@ func reprOf(v rel.Value) (s string) {
 	return fu.Repr(v)
 }
 
+// reprUnordered is the printed form of a value with the members of a (top-level) set in sorted order of
+// their own printed forms, unless the set prints in a sugared form (string, array, dict, relation).
+func reprUnordered(v rel.Value) string {
+	r := reprOf(v)
+	s, isSet := v.(rel.Set)
+	if !isSet || !strings.HasPrefix(r, "{") || strings.HasPrefix(r, "{|") {
+		return r
+	}
+	if _, isDict := v.(rel.Dict); isDict {
+		return r
+	}
+	var ms []string
+	n := 0
+	for e := s.Enumerator(); e.MoveNext() && n < 1000; n++ {
+		ms = append(ms, reprOf(e.Current()))
+	}
+	sort.Strings(ms)
+	return "{" + strings.Join(ms, ", ") + "}"
+}
+
 func outcomeKey(o obs.Outcome) string {
 	switch {
 	case o.Panic != "":
@@ -203,7 +223,9 @@ func checkC02(w *core.W) {
 				if a.V.Hash(0) != b.V.Hash(0) {
 					report("wrong", "twins-hash-differently", "")
 				}
-				if ra, rb := reprOf(a.V), reprOf(b.V); ra != rb {
+				// printed form: for sets the members' printed forms are compared as a multiset - the ORDER in
+				// which members are printed is the business of C06/C07 (it follows Less, which has recorded defects)
+				if ra, rb := reprUnordered(a.V), reprUnordered(b.V); ra != rb {
 					report("wrong", "twins-print-differently", ra+" vs "+rb)
 				}
 				o := obs.Eval(key, obs.Scope("a", a.V, "b", b.V))
